@@ -125,11 +125,12 @@ inline std::vector<u8> slot_background(const FrameSpec& fs, std::size_t size, in
 }
 
 // The CPU budget is set once per plan (PlanBudget), not per call.
-inline Outcome call_driver(const Driver& d, Req& rq, Res& rs)
+inline Outcome call_driver(const Driver& d, Req& rq, Res& rs, long cpu_ms = 0)
 {
     rs.reset();
     api_gap_slot() = nullptr;
-    Outcome o = sim::guarded([&] { d.run(rq, rs); });
+    // cpu_ms: a budget for this one call (it replaces the plan's budget from here on)
+    Outcome o = sim::guarded([&] { d.run(rq, rs); }, cpu_ms);
     rs.api_gap = api_gap_slot();
     return o;
 }
